@@ -98,7 +98,7 @@ Definition deviation_witnesses : list (N * list N * bool) := [
   (d_cborseq, s2n "a = b .sizefoo", true);
   (d_radix_float, s2n "a = 0b1.5", false);
   (d_bytes_key, s2n "a = { 'a': int }", false);
-  (d_implicit_ws, s2n "$ x = int", true);
+  (d_implicit_ws, s2n "a <t> = [t]", true);
   (d_implicit_ws, s2n "a = b <c>", true);
   (d_implicit_ws, s2n "a = #6.< int >(tstr)", true);
   (d_tag_forms, s2n "a = #1(int)", true);
